@@ -220,6 +220,14 @@ class Folder:
             return
         if k == "IfStmt":
             then_items, else_items = [], []
+            cond_sym = None
+            if any(is_codec_call(x) for x in walk(s.get("cond"))):
+                before = len(items)
+                self._expr_stmt(s.get("cond"), items)
+                if len(items) == before + 1:
+                    cond_sym = ("ref", len(items) - 1)
+                else:
+                    raise Unfoldable("condition with nested codec calls at %s" % s.get("loc"))
             saved = dict(self.env)
             self._stmt(s.get("then"), then_items)
             env_then = self.env
@@ -242,7 +250,7 @@ class Folder:
             if repr(then_items) == repr(else_items):
                 items.extend(then_items)
                 return
-            items.append(Item("OPT", cond=self.sym(s.get("cond")), body=then_items, orelse=else_items))
+            items.append(Item("OPT", cond=cond_sym if cond_sym is not None else self.sym(s.get("cond")), body=then_items, orelse=else_items))
             return
         if k == "CXXForRangeStmt":
             body_items = []
@@ -300,10 +308,15 @@ class Folder:
         # nested codec call defining a variable
         calls = [x for x in walk(init) if x["k"] in ("CallExpr", "CXXMemberCallExpr") and (codec_of(x.get("callee")) or FORMAT_CODEC.match(x.get("callee") or ""))]
         if calls:
+            if self.kind == "size" and did != self.acc:
+                part = []
+                self._add_terms(init, part)
+                self.env[did] = ("partial", tuple(part))
+                return
             before = len(items)
             self._expr_stmt(init, items, defining=did)
             if len(items) > before and self.kind == "decode":
-                self.env[did] = ("ref", len(items) - 1) if self.depth_top(items) else ("ref", len(items) - 1)
+                self.env[did] = ("ref", len(items) - 1)
             return
         if self.kind == "size" and self.acc == did:
             # size accumulator: its initial value contributes
@@ -344,6 +357,10 @@ class Folder:
             if fc and fc.group(3) == "compute_encoded_size":
                 items.append(Item("SUBF", t=fc.group(1) + "<" + norm_type(fc.group(2)) + ">", des=None, val=None))
                 return
+        v = var_ref(e1)
+        if v is not None and isinstance(self.env.get(v), tuple) and self.env[v] and self.env[v][0] == "partial":
+            items.extend(self.env[v][1])
+            return
         s = self.sym(e1)
         self._append_sym(s, items)
 
@@ -675,7 +692,7 @@ def all_fixed(flat):
     return bool(flat) and all(f.kind == "F" for f in flat)
 
 
-def canon(flat, pushes, enc_flat, collapse=False):
+def canon(flat, pushes, enc_flat, collapse=False, unordered=False):
     parts = []
     pending_f = 0
     pending_des = None
@@ -700,7 +717,7 @@ def canon(flat, pushes, enc_flat, collapse=False):
             body_enc = None
             if enc_flat is not None and i < len(enc_flat) and enc_flat[i].kind == "REP":
                 body_enc = enc_flat[i].body
-            inner = canon(f.body, pushes, body_enc if body_enc is not None else None, collapse)
+            inner = canon(f.body, pushes, body_enc if body_enc is not None else None, collapse, unordered)
             cnt = canon_term(f.count, pushes, enc_flat, f.origin)
             if collapse and all_fixed(f.body):
                 inner = "F%d" % sum(x.n for x in f.body)
@@ -717,8 +734,19 @@ def canon(flat, pushes, enc_flat, collapse=False):
             e1 = e2 = None
             if enc_flat is not None and i < len(enc_flat) and enc_flat[i].kind == "OPT":
                 e1, e2 = enc_flat[i].body, enc_flat[i].orelse
-            parts.append("%sOPT[%s]{%s}{%s}" % (des_txt(f.des), canon_term(f.cond, pushes, enc_flat, f.origin), canon(f.body, pushes, e1, collapse), canon(f.orelse, pushes, e2, collapse)))
+            parts.append("%sOPT[%s]{%s}{%s}" % (des_txt(f.des), canon_term(f.cond, pushes, enc_flat, f.origin), canon(f.body, pushes, e1, collapse, unordered), canon(f.orelse, pushes, e2, collapse, unordered)))
     flush()
+    if unordered:
+        # a size is a sum: the order of its summands is irrelevant, fixed parts add up
+        fixed = 0
+        rest = []
+        for p_ in parts:
+            m_ = re.match(r"^(?:@[^ ]*:)?F(\d+)$", p_)
+            if m_:
+                fixed += int(m_.group(1))
+            else:
+                rest.append(re.sub(r"^@[^ ]*:", "", p_))
+        parts = (["F%d" % fixed] if fixed else []) + sorted(rest)
     return " ".join(parts)
 
 
